@@ -133,3 +133,127 @@ def expected_outcome(content, op):
                 return None if unknown else r
         return None if unknown else "ok"
     return ns.step(op)
+
+
+# --------------------------------------------------------------------------- documented effect on the content
+
+
+def _strip(c, n):
+    for _, r in c["rxns"]:
+        r["st"] = [kv for kv in r["st"] if kv[0] != n]
+    for _, s in c["surs"]:
+        for fs in s["st"]:
+            fs[1] = [kv for kv in fs[1] if kv[0] != n]
+
+
+def _put(lst, n, v):
+    for kv in lst:
+        if kv[0] == n:
+            kv[1] = v
+            return
+    lst.append([n, v])
+
+
+def _get(lst, n):
+    return next(v for k, v in lst if k == n)
+
+
+def _drop(c, kind, n):
+    c[kind] = [kv for kv in c[kind] if kv[0] != n]
+
+
+def _scaled(c, n, factor):
+    """current value of parameter n (an assignment-defined one: its time-zero value, from the order-free
+    evaluator of vlib.content) times the factor, as a canonical rational string"""
+    from fractions import Fraction
+
+    from vlib import content as C
+    from vlib.fexpr import rat_str
+
+    v = _get(c["pars"], n)
+    if "v" in v:
+        return rat_str(Fraction(v["v"]) * Fraction(factor))
+    return rat_str(C.Spec(c).init_values()[n] * Fraction(factor))
+
+
+def _apply1(c, op):
+    k, n = op[0], op[1]
+    if k in ADD:
+        c[ADD[k]].append([n, op[2]])
+    elif k == "add_surrogate":
+        c["surs"].append([n, op[2]])
+    elif k == "remove_variable":
+        _drop(c, "vars", n)
+        if op[2]:
+            _strip(c, n)
+    elif k in REMOVE:
+        _drop(c, REMOVE[k], n)
+    elif k == "remove_surrogate":
+        _drop(c, "surs", n)
+    elif k in ("update_parameter", "update_variable"):
+        if op[2] is not None:
+            _put(c[UPDATE[k]], n, op[2])
+    elif k == "update_data":
+        _put(c["data"], n, op[2])
+    elif k == "scale_parameter":
+        _put(c["pars"], n, {"v": _scaled(c, n, op[2])})
+    elif k == "make_parameter_dynamic":
+        val = _get(c["pars"], n) if op[2] is None else {"v": op[2]}
+        _drop(c, "pars", n)
+        c["vars"].append([n, val])
+        for flux, coef in op[3] or []:
+            if flux in [x for x, _ in c["rxns"]]:
+                _put(_get(c["rxns"], flux)["st"], n, {"c": coef})
+            else:
+                for _, s in c["surs"]:
+                    for fs in s["st"]:
+                        if fs[0] == flux and fs[1]:
+                            _put(fs[1], n, {"c": coef})
+    elif k == "make_variable_static":
+        # documented: the variable becomes a parameter carrying the given value or the variable's own initial
+        # value (a number or the same initial assignment) and leaves every stoichiometry
+        val = _get(c["vars"], n) if op[2] is None else {"v": op[2]}
+        _drop(c, "vars", n)
+        _strip(c, n)
+        c["pars"].append([n, val])
+    elif k == "update_derived":
+        d = _get(c["derived"], n)
+        _put(c["derived"], n, {"args": d["args"] if op[3] is None else op[3], "e": d["e"] if op[2] is None else op[2]})
+    elif k == "update_reaction":
+        d = _get(c["rxns"], n)
+        _put(c["rxns"], n, {"args": d["args"] if op[3] is None else op[3], "e": d["e"] if op[2] is None else op[2],
+                            "st": d["st"] if op[4] is None else op[4]})
+    elif k == "update_surrogate":
+        d = dict(_get(c["surs"], n) if op[2] is None else op[2])
+        if op[3] is not None:
+            d["args"] = op[3]
+        if op[4] is not None:
+            d["outs"] = op[4]
+        if op[5] is not None:
+            d["st"] = op[5]
+        _put(c["surs"], n, d)
+    else:
+        raise ValueError(op)
+
+
+def expected_content(before, op):
+    """what the documentation of each mutator says an ACCEPTED call does to the seven containers, as a function
+    of the content before — independent of the model's own bookkeeping. None where it depends on numbers that
+    cannot be evaluated (incomplete model)."""
+    import copy
+
+    c = copy.deepcopy(before)
+    try:
+        if op[0] == "scale_parameters":
+            # every new value is the current value times its factor
+            vals = [[n, {"v": _scaled(c, n, f)}] for n, f in op[1]]
+            for n, v in vals:
+                _put(c["pars"], n, v)
+        elif op[0] in PLURAL:
+            for el in singular_ops(op):
+                _apply1(c, el)
+        else:
+            _apply1(c, op)
+    except Exception:  # noqa: BLE001
+        return None
+    return c
